@@ -20,10 +20,13 @@ type CronStateMachine struct {
 	day    *DayNode
 	month  csmNode
 	year   csmNode
+
+	// exhausted is set once the year has run past its last valid value
+	exhausted bool
 }
 
 func NewCronStateMachine(second, minute, hour csmNode, day *DayNode, month, year csmNode) *CronStateMachine {
-	return &CronStateMachine{second, minute, hour, day, month, year}
+	return &CronStateMachine{second, minute, hour, day, month, year, false}
 }
 
 func (csm *CronStateMachine) Value() time.Time {
@@ -42,7 +45,12 @@ func (csm *CronStateMachine) ValueWithLocation(loc *time.Location) time.Time {
 	)
 }
 
-func (csm *CronStateMachine) NextTriggerTime(loc *time.Location) time.Time {
+// NextTriggerTime returns the first instant after the initial one that fits
+// the expression. It returns false if there is no such instant.
+func (csm *CronStateMachine) NextTriggerTime(loc *time.Location) (time.Time, bool) {
 	csm.findForward()
-	return csm.ValueWithLocation(loc)
+	if csm.exhausted {
+		return time.Time{}, false
+	}
+	return csm.ValueWithLocation(loc), true
 }
